@@ -149,6 +149,20 @@ fn c04_q_cfi_walker_x86_cfa_ra_too_wide() {
 #[kani::proof]
 #[kani::unwind(12)]
 fn c04_q_cfi_walker_x86_getters_and_clear() {
+    cfi_walker_x86_getters_and_clear();
+}
+
+/// F: <CfiStackWalker<CONTEXT_X86> as FrameWalker>::{get_callee_register, get_register_at_address, clear_caller_register} — what `$reg`, bare `reg` and `^` in a STACK CFI rule read and what a failed rule clears (same body as c04_q_cfi_walker_x86_getters_and_clear, registered under C06)
+/// I: callee x86 registers, 8 stack bytes at a symbolic base, byte order, probe address
+/// B: one walker; callee validity {esp, ebp, ebx}
+/// O: a register that is unknown in the callee reads as unknown (so the rule using it fails) however stale its stored value; memory reads are words of the stack region in the dump's byte order; clearing removes exactly the named register
+#[kani::proof]
+#[kani::unwind(12)]
+fn c06_q_cfi_walker_callee_register_validity() {
+    cfi_walker_x86_getters_and_clear();
+}
+
+fn cfi_walker_x86_getters_and_clear() {
     let ctx = x86_ctx();
     let valid = MinidumpContextValidity::Some(set_of(&["esp", "ebp", "ebx"]));
     let fwd = hook::x86_forwarded(&valid);
